@@ -108,6 +108,8 @@ def _obs(a):
 def _apply_edit(H, e):
     if e[0] == "del":
         H.remove_rxn(e[1])
+    elif e[0] == "rmsp":
+        H.remove_species(e[1])
     else:
         eid, rule, l, r = e[1]
         H.add_rxn({s: c for s, c in l}, {s: c for s, c in r}, rule=rule, edge_id=eid)
